@@ -139,7 +139,10 @@ SubElem(banc, x, y) ==
   ELSE IF x.k = "any" THEN SubElem(banc, [k |-> "cls", c |-> 1], y)
   \* [k |-> "metaof", cs] : a metaclass used as an annotation; the classes cs are its instances.  It is
   \* below object only, and a passed class satisfies it iff it is one of its instances
+  \* (via = "base": not the metaclass itself but an ordinary class the metaclass inherits from - an ABC, a
+  \* protocol-like mixin; the classes cs are its instances just the same, and the metaclass is below it)
   ELSE IF x.k = "metaof" THEN (y.k = "cls" /\ y.c = 1) \/ x = y
+                              \/ (y.k = "metaof" /\ y.m = x.m /\ "via" \in DOMAIN y /\ "via" \notin DOMAIN x)
   ELSE IF y.k = "metaof" THEN x.k = "cls" /\ x.c \in {y.cs[j] : j \in DOMAIN y.cs}
   ELSE IF x.k = "cls" /\ y.k = "cls" THEN y.c \in banc[x.c]
   ELSE IF x.k = "gen" /\ y.k = "cls" THEN y.c \in banc[x.o]
